@@ -209,6 +209,110 @@ def companion_snapshots(ctx: Ctx, rule: str) -> None:
                "other images veto the vm state, so a vm with two or more images never lists a vm state")
 
 
+def dead_links(ctx: Ctx, rule: str) -> None:
+    """In link mode a cached state is a symlink into a pool; when the pool file is removed the link dangles.  Listing the states of an image
+    must not die on such an entry (os.stat follows links), or one removed pool state blocks check/get/set of every other state of the image -
+    including the download that would repair the link."""
+    from ..kinds import guard_rule, function_views, names_interesting, expr_formula
+
+    for fref in ("states/qcow2.py:QCOW2ExtBackend._show", "states/ramfile.py:RamfileBackend._show"):
+        fn = ctx.repo.func(fref)
+        ctx.touch(fref)
+        views = function_views(ctx, fref, names_interesting({"stat", "exists", "lexists", "islink", "listdir"}))
+        tolerant = any(isinstance(t, ast.Try) and any(call_name(c) == "stat" for b_ in t.body for c in calls_in(b_))
+                       and any(h.type is not None and ("FileNotFoundError" in ast.unparse(h.type) or "OSError" in ast.unparse(h.type)) for h in t.handlers) for t in ast.walk(fn.node))
+        if tolerant:
+            ctx.record(rule, "GUARD", fref, "os.stat of a listed state file tolerates a dangling link", True, {}, "")
+            continue
+        guard_rule(ctx, rule, fref, views, lambda c: call_name(c) == "stat" and ast.unparse(c.func.value) == "os",
+                   lambda v, i, c: expr_formula(v, i, f"os.path.exists({ast.unparse(c.args[0])})"),
+                   min_sites=1, missing_is_violation=True, what="os.stat of a listed state file",
+                   describe_required="the entry exists (a dangling link left by a removed pool state is skipped)")
+
+
+def _state_name(loop: ast.For, accepted: list[str]) -> tuple[bool, str]:
+    """The single assignment to `state` in the loop, with single-assigned locals of the loop substituted."""
+    names = [s for s in ast.walk(loop) if isinstance(s, ast.Assign) and ast.unparse(s.targets[0]) == "state"]
+    if len(names) != 1:
+        return False, f"{len(names)} assignments to `state`"
+    local = {}
+    for s in ast.walk(loop):
+        if isinstance(s, ast.Assign) and len(s.targets) == 1 and isinstance(s.targets[0], ast.Name) and s.targets[0].id != "state":
+            local.setdefault(s.targets[0].id, []).append(s.value)
+
+    class Sub(ast.NodeTransformer):
+        def visit_Name(self, node):
+            if node.id in local and len(local[node.id]) == 1:
+                return self.visit(ast.parse(ast.unparse(local[node.id][0]), mode="eval").body)
+            return node
+
+    got = ast.unparse(Sub().visit(ast.parse(ast.unparse(names[0].value), mode="eval").body))
+    return got in accepted or ast.unparse(names[0].value) in accepted, got
+
+
+def _module_regexes(ctx: Ctx, mod: str) -> dict[str, tuple[str, int]]:
+    out = {}
+    for s in ctx.repo.module(mod).body:
+        if isinstance(s, ast.Assign) and len(s.targets) == 1 and isinstance(s.targets[0], ast.Name) and isinstance(s.value, ast.Call) \
+                and ast.unparse(s.value.func) == "re.compile" and s.value.args and isinstance(s.value.args[0], ast.Constant) and isinstance(s.value.args[0].value, str):
+            flags = 0
+            for fl in list(s.value.args[1:]) + [kw.value for kw in s.value.keywords if kw.arg == "flags"]:
+                for part in ast.unparse(fl).split("|"):
+                    flags |= getattr(re, part.strip().split(".")[-1], 0)
+            out[s.targets[0].id] = (s.value.args[0].value, flags)
+    return out
+
+
+def suffix_filter(ctx: Ctx, mod: str, loop: ast.For, snap: str, ext: str):
+    """The entry filter of a state directory listing, decided by the language of accepted file names rather than by its spelling.
+
+    Recognised tests of the entry `snap`: `snap.endswith(K)`, `R.match/fullmatch/search(snap)` of a module-level compiled pattern and
+    `re.match/fullmatch/search(P, snap)`.  A test qualifies when the accepted names all end with `ext` and every `<state name><ext>` is accepted.
+    returns (formula texts of qualifying tests, accepted name expressions, notes about tests that do not qualify)"""
+    regexes = _module_regexes(ctx, mod)
+    want_sup = rx.cat(rx.SIGMA_STAR, rx.literal(ext))
+    model = rx.exact_language(r"[\w.-]+" + re.escape(ext))
+    formulas, names, notes = [], [], []
+    for c in calls_in(loop):
+        f = c.func
+        if not isinstance(f, ast.Attribute):
+            continue
+        lang = None
+        if f.attr == "endswith" and ast.unparse(f.value) == snap and len(c.args) == 1 and isinstance(c.args[0], ast.Constant) and isinstance(c.args[0].value, str):
+            k = c.args[0].value
+            lang, what = rx.cat(rx.SIGMA_STAR, rx.literal(k)), f"endswith({k!r})"
+            nm = [f"{snap}[:-{len(k)}]", f"{snap}[:-len({k!r})]", f"{snap}.removesuffix({k!r})", f"{snap}[:len({snap}) - {len(k)}]"]
+            if k.count(".") == 1 and k.startswith("."):
+                nm.append(f"os.path.splitext({snap})[0]")
+        elif f.attr in ("match", "fullmatch", "search"):
+            if ast.unparse(f.value) == "re" and len(c.args) >= 2 and isinstance(c.args[0], ast.Constant) and ast.unparse(c.args[1]) == snap:
+                pat, flags = c.args[0].value, 0
+            elif isinstance(f.value, ast.Name) and f.value.id in regexes and len(c.args) == 1 and ast.unparse(c.args[0]) == snap:
+                pat, flags = regexes[f.value.id]
+            else:
+                continue
+            try:
+                lang, what = rx.call_language(pat, flags, f.attr), f"{f.attr} of {pat!r}"
+            except AnalysisError as e:
+                notes.append(f"pattern {pat!r} is outside the analysed regex subset ({e})")
+                continue
+            call = ast.unparse(c)
+            nm = [f"{call}.group(1)", f"{call}[1]"] if rx.group_then_suffix(pat, flags, f.attr, ext) else []
+        if lang is None:
+            continue
+        only, wit1, _ = rx.is_empty(rx.conj([lang, rx.neg(want_sup)]))
+        every, wit2, _ = rx.subset(model, lang)
+        if only and every:
+            call = ast.unparse(c)
+            formulas += [call, f"{call} is not None"]
+            names += nm
+        elif not only:
+            notes.append(f"{what} accepts the entry {wit1!r} that does not end with {ext!r}")
+        else:
+            notes.append(f"{what} rejects the state file {wit2!r}")
+    return formulas, names, notes
+
+
 def ramfile_guard(ctx: Ctx, rule: str) -> None:
     fref = SITES[1][0]
     fn = ctx.repo.func(fref)
@@ -218,15 +322,18 @@ def ramfile_guard(ctx: Ctx, rule: str) -> None:
     snap = snap_loop.target.id
     views = loop_iteration_views(ctx, fref, snap_loop, None)
 
+    tests, name_forms, notes = suffix_filter(ctx, R, snap_loop, snap, ".state")
+
     def required(v: PathView, i: int, c: ast.Call):
-        return norm.conj([expr_formula(v, i, f"{ast.unparse(c.args[0])} in {acc}"), expr_formula(v, i, f"{snap}.endswith('.state')")])
+        suffix = norm.disj([expr_formula(v, i, t) for t in tests]) if tests else expr_formula(v, i, f"{snap}.endswith('.state')")
+        return norm.conj([expr_formula(v, i, f"{ast.unparse(c.args[0])} in {acc}"), suffix])
 
     guard_rule(ctx, rule, fref, views, lambda c: call_name(c) in ("append", "add") and ast.unparse(c.func.value) == "states", required,
                min_sites=1, missing_is_violation=True, what="states.append(<state>)",
-               describe_required="the memory file's state name is in the image intersection and the entry ends with '.state'")
-    names = [s for s in ast.walk(snap_loop) if isinstance(s, ast.Assign) and ast.unparse(s.targets[0]) == "state"]
-    ok = len(names) == 1 and ast.unparse(names[0].value) == f"{snap}[:-6]" and len(".state") == 6
-    ctx.record(rule + "n", "CONST", fref, "state name = directory entry minus the 6 characters of '.state'", ok, {}, "" if ok else "memory state names are no longer '<entry minus .state>'")
+               describe_required="the memory file's state name is in the image intersection and the entry ends with '.state'" + "".join(f"; {n}" for n in notes))
+    ok, got = _state_name(snap_loop, name_forms)
+    ctx.record(rule + "n", "CONST", fref, "state name = directory entry minus the suffix '.state'", ok, {"accepted": name_forms, "found": got},
+               "" if ok else f"memory state names are no longer '<entry minus .state>': {got}")
     src = [s for s in fn.node.body if isinstance(s, ast.Assign) and ast.unparse(s.targets[0]) == snap_loop.iter.id]
     oks = len(src) == 1 and ast.unparse(src[0].value) == "os.listdir(vm_dir)"
     rets = [r for r in ast.walk(fn.node) if isinstance(r, ast.Return)]
@@ -267,7 +374,7 @@ def _regex_constants(ctx: Ctx) -> dict[str, tuple[str, int]]:
                 for part in ast.unparse(c.args[1]).split("|"):
                     flags |= getattr(re, part.strip().split(".")[-1])
             out[s.targets[0].id] = (c.args[0].value, flags)
-    if set(out) != {"QEMU_ON_STATES_REGEX", "QEMU_OFF_STATES_REGEX"}:
+    if not {"QEMU_ON_STATES_REGEX", "QEMU_OFF_STATES_REGEX"} <= set(out):
         raise AnalysisError(f"snapshot regex constants not found: {sorted(out)}")
     return out
 
@@ -295,7 +402,8 @@ def regex_rules(ctx: Ctx, rule: str) -> None:
                    "" if ok else f"{text}: fails for the listing line {wit!r}")
     ctx.extra["regex_automaton_states"] = states
     # group 1 is the tag in both patterns
-    for name, (p, f) in consts.items():
+    for name in ("QEMU_ON_STATES_REGEX", "QEMU_OFF_STATES_REGEX"):
+        p, f = consts[name]
         groups = re.compile(p, f).groups
         ctx.record(rule + "g", "CONST", f"{Q}:{name}", "two capture groups: (tag)(vm size)", groups == 2, {"groups": groups},
                    "" if groups == 2 else "the capture groups of a snapshot pattern changed: show() reads group 0 as the state name")
@@ -328,12 +436,14 @@ def ext_listing(ctx: Ctx, rule: str) -> None:
     loop = the_loop(ctx, fref, ast.For, lambda l: isinstance(l.iter, ast.Name), "loop over the image's snapshot files")
     snap = loop.target.id
     views = loop_iteration_views(ctx, fref, loop, None)
+    tests, name_forms, notes = suffix_filter(ctx, Q, loop, snap, ".qcow2")
     guard_rule(ctx, rule, fref, views, lambda c: call_name(c) == "append" and ast.unparse(c.func.value) == "states",
-               lambda v, i, c: expr_formula(v, i, f"{snap}.endswith('.qcow2')"), min_sites=1, missing_is_violation=True,
-               what="states.append(<state>)", describe_required="the directory entry ends with '.qcow2'")
-    names = [s for s in ast.walk(loop) if isinstance(s, ast.Assign) and ast.unparse(s.targets[0]) == "state"]
-    ok = len(names) == 1 and ast.unparse(names[0].value) == f"{snap}[:-6]" and len(".qcow2") == 6
-    ctx.record(rule + "n", "CONST", fref, "state name = entry minus the 6 characters of '.qcow2'", ok, {}, "" if ok else "external state names are no longer '<entry minus .qcow2>'")
+               lambda v, i, c: norm.disj([expr_formula(v, i, t) for t in tests]) if tests else expr_formula(v, i, f"{snap}.endswith('.qcow2')"),
+               min_sites=1, missing_is_violation=True,
+               what="states.append(<state>)", describe_required="the directory entry ends with '.qcow2'" + "".join(f"; {n}" for n in notes))
+    ok, got = _state_name(loop, name_forms)
+    ctx.record(rule + "n", "CONST", fref, "state name = entry minus the suffix '.qcow2'", ok, {"accepted": name_forms, "found": got},
+               "" if ok else f"external state names are no longer '<entry minus .qcow2>': {got}")
 
 
 def engine_selftest(ctx: Ctx, seed: int) -> dict:
@@ -403,6 +513,7 @@ def run(ctx: Ctx) -> None:
     ctx.call(vt_result, "2r")
     ctx.call(companion_snapshots, "2z")
     ctx.call(ramfile_guard, "3")
+    ctx.call(dead_links, "8")
     ctx.call(regex_rules, "4")
     ctx.call(ext_listing, "5")
     if ctx.tier == "thorough":
@@ -413,6 +524,8 @@ def run(ctx: Ctx) -> None:
 
 
 MUTANTS = [
+    ("image-listing-stats-dead-link", Q, "            if not os.path.exists(os.path.join(image_dir, snapshot)):\n                logging.warning(f\"Dead link {snapshot} in {image_dir} is not a state\")\n                continue\n", "", "8"),
+    ("memory-listing-stats-dead-link", R, "            if not os.path.exists(os.path.join(vm_dir, snapshot)):\n                logging.warning(f\"Dead link {snapshot} in {vm_dir} is not a state\")\n                continue\n", "", "8"),
     ("iteration-writes-input", "states/setup.py", "        obj_params[params_obj_type] = params_obj_name\n", "        params[params_obj_type] = params_obj_name\n        obj_params[params_obj_type] = params_obj_name\n", "7w"),
     ("intersect-typo", Q, "states = states.intersection(image_states)", "states = states.intersect(image_states)", "1"),
     ("empty-sentinel", Q, "            if states is None:\n                states = image_states", "            if not states:\n                states = image_states", "2"),
@@ -424,6 +537,8 @@ MUTANTS = [
     ("off-size-any", Q, "\\s*(0 B)\\s+", "\\s*(\\d+ B)\\s+", "4"),
     ("vt-uses-off", Q, "    _require_running_object = True\n", "    _require_running_object = False\n", "4q"),
     ("multiline-lost", Q, "r\"^\\d+\\s+([\\w\\.-]+)\\s*(0 B)\\s+\\d{4}-\\d\\d-\\d\\d\", flags=re.MULTILINE", "r\"^\\d+\\s+([\\w\\.-]+)\\s*(0 B)\\s+\\d{4}-\\d\\d-\\d\\d\"", "4f"),
+    ("qcow2-suffix-unanchored-regex", Q, "            if not snapshot.endswith(\".qcow2\"):\n", "            if not re.match(r\"[\\w.-]+\\.qcow2\", snapshot):\n", "5"),
+    ("memory-suffix-without-dot", R, "            if not snapshot.endswith(\".state\"):\n", "            if not snapshot.endswith(\"state\"):\n", "3"),
     ("qcow2-suffix-filter", Q, "            if not snapshot.endswith(\".qcow2\"):\n                continue\n", "", "5"),
     ("P-and-operator", Q, "states = states.intersection(image_states)", "states = states & image_states", None),
     ("P-update", R, "images_states = images_states.intersection(image_snapshots)", "images_states &= image_snapshots", None),
